@@ -980,12 +980,12 @@ def check_flights(chk: Check, cases, f1_fixed: bool, interp_fixed: bool, gfix: b
             if ans is None:
                 continue
             tas, rocd, ff = ans
-            ok = tas > 0 and ((rule == 'CLIMB' and rocd > 0) or (rule == 'DESCEND' and rocd < 0)
-                              or (rule == 'CRUISE' and ff >= 0))
+            ok = tas > abs(rocd) and ((rule == 'CLIMB' and rocd > 0) or (rule == 'DESCEND' and rocd < 0)
+                                      or (rule == 'CRUISE' and ff > 0))
             if not ok:
                 chk.broken('assumption:valid_oracle',
                            f'performance model answered {ans} for {rule} at altitude {alt}, mass {mass}: outside the '
-                           'hypotheses (climb rocd > 0, descent rocd < 0, tas > 0, cruise fuel flow >= 0)',
+                           'hypotheses (climb rocd > 0, descent rocd < 0, tas > |rocd|, cruise fuel flow > 0)',
                            {'kind': 'flight', 'case': case})
                 break
         chk.count('oracle-answers-checked', sum(1 for c in im['perf'] if c[3] is not None))
@@ -1080,7 +1080,7 @@ def common_setup(chk: Check):
                     'Coq model, Python property oracle', 'translator/c02_extract.py (units constants, literals of legacy.py)',
                     'pyproj/PROJ geodesics (oracle of C15), scipy interpn (oracle of C06): replayed, not modelled',
                     'real-vs-binary64 gap: theorems are over R, the same text runs at binary64 (compared at 1e-9)']
-    chk.assumptions += ['performance oracle: climb rocd > 0, descent rocd < 0, tas > 0, cruise fuel flow >= 0 '
+    chk.assumptions += ['performance oracle: climb rocd > 0, descent rocd < 0, tas > |rocd|, cruise fuel flow > 0 '
                         '(hypotheses of the theorems; true of every valid table, checked on the recorded answers)',
                         'use_weather = False (ground speed under wind is C16)',
                         'at a time carried by two stored points (the duplicated hand-over point) resampling must '
